@@ -444,8 +444,8 @@ def _cmp_arrays(P, c, sig, name, obs, exp, tol_abs, exact: bool, what: str, mask
     badm = ~(d <= tol_abs)
     if np.any(badm):
         j = int(np.argmax(np.where(badm, d / (tol_abs + 1e-300), 0)))
-        viol(P, f"{what}: {name}[{j}] = {obs[j]!r}, expected {exp[j]!r} (|diff| {d[j]:.3g} > tol {float(np.broadcast_to(tol_abs, d.shape)[j]):.3g})",
-             dict(sig, field=name), c, bin=j, observed=obs[j], expected=exp[j], **extra)
+        viol(P, f"{what}: {name}[{j}] = {obs[j].item()!r}, expected {exp[j].item()!r} (|diff| {d[j]:.3g} > tol {float(tol_abs[j]):.3g})",
+             dict(sig, field=name), c, bin=j, observed=obs[j].item(), expected=exp[j].item(), **extra)
 
 
 def _derived_tols(base, ex, ey, exy, rel):
@@ -682,8 +682,8 @@ def oracle(ctx, intensive: bool = False, hints=()) -> C.Part:
     for c in CORPUS:
         CHECKS[c["kind"]](P, c)
     check_edges(P)
-    plan = [("calib", ctx.scale(300, 3000) * mult), ("enbw", ctx.scale(40, 400) * mult), ("scale", ctx.scale(40, 400) * mult),
-            ("fs", ctx.scale(30, 300) * mult), ("fs_single", ctx.scale(20, 200) * mult)]
+    plan = [("calib", ctx.scale(600, 5000) * mult), ("enbw", ctx.scale(80, 600) * mult), ("scale", ctx.scale(80, 600) * mult),
+            ("fs", ctx.scale(60, 450) * mult), ("fs_single", ctx.scale(40, 300) * mult)]
     total = float(sum(n for _, n in plan))
     t_all = max(30.0, min(ctx.time_left() - 20.0, (600.0 if ctx.thorough else 70.0) * mult))
     import time
